@@ -69,13 +69,17 @@ structure NumParts where
   ex : Option (Char × Option Char × Str)  -- exponent: the letter, the optional sign, the digits (non-empty)
   deriving Repr, DecidableEq
 
+def expText : Option (Char × Option Char × Str) → Str
+  | some (l, some s, ds) => l :: s :: ds
+  | some (l, none, ds) => l :: ds
+  | none => []
+
+def fracText : Option Str → Str
+  | some f => '.' :: f
+  | none => []
+
 def NumParts.text (p : NumParts) : Str :=
-  (if p.neg then ['-'] else []) ++ p.ip
-    ++ (match p.fp with | some f => '.' :: f | none => [])
-    ++ (match p.ex with
-        | some (l, some s, ds) => l :: s :: ds
-        | some (l, none, ds) => l :: ds
-        | none => [])
+  (if p.neg then ['-'] else []) ++ p.ip ++ fracText p.fp ++ expText p.ex
 
 /-- `([eE][+-]?[0-9]+)?` then end of text -/
 def splitExp (t : Str) : Option (Option (Char × Option Char × Str)) :=
@@ -92,25 +96,25 @@ def splitExp (t : Str) : Option (Option (Char × Option Char × Str)) :=
           (if t1.all isDigit then some (some (l, none, t1)) else none)
     else none
 
-/-- `[0-9]+(\.[0-9]+)?([eE][+-]?[0-9]+)?` then end of text -/
-def splitUnsigned (neg : Bool) (s1 : Str) : Option NumParts :=
-  let ip := s1.takeWhile isDigit
-  let s2 := s1.dropWhile isDigit
+/-- after the integer digits `ip`: `(\.[0-9]+)?([eE][+-]?[0-9]+)?` then end of text -/
+def splitAfter (neg : Bool) (ip s2 : Str) : Option NumParts :=
   if ip = [] then none else
   match s2 with
   | [] => some ⟨neg, ip, none, none⟩
   | c :: s3 =>
     if c = '.' then
-      (let fp := s3.takeWhile isDigit
-       let s4 := s3.dropWhile isDigit
-       if fp = [] then none else
-       match splitExp s4 with
-       | some ex => some ⟨neg, ip, some fp, ex⟩
+      (if s3.takeWhile isDigit = [] then none else
+       match splitExp (s3.dropWhile isDigit) with
+       | some ex => some ⟨neg, ip, some (s3.takeWhile isDigit), ex⟩
        | none => none)
     else
       match splitExp s2 with
       | some ex => some ⟨neg, ip, none, ex⟩
       | none => none
+
+/-- `[0-9]+(\.[0-9]+)?([eE][+-]?[0-9]+)?` then end of text -/
+def splitUnsigned (neg : Bool) (s1 : Str) : Option NumParts :=
+  splitAfter neg (s1.takeWhile isDigit) (s1.dropWhile isDigit)
 
 def splitNumeral (s : Str) : Option NumParts :=
   match s with
@@ -169,25 +173,25 @@ def lexExp (t : Str) : Option (Option Int) :=
         else (if t1.all isDigit then some (some (digitsVal t1 : Int)) else none)
     else none
 
-/-- `DIGIT* ("." DIGIT*)? EXP?` with the side conditions of INT_LIT / FLOAT_LIT, to the end of the text -/
-def lexUnsigned (neg : Bool) (t1 : Str) : Option CNum :=
-  let ip := t1.takeWhile isDigit
-  let t2 := t1.dropWhile isDigit
+/-- after the integer digits `ip`: `("." DIGIT*)? EXP?` with the side conditions of INT_LIT / FLOAT_LIT,
+    to the end of the text -/
+def lexAfter (neg : Bool) (ip t2 : Str) : Option CNum :=
   match t2 with
   | [] => if ip = [] then none else some (.int (signed neg (digitsVal ip)))
   | c :: t3 =>
     if c = '.' then
-      (let fp := t3.takeWhile isDigit
-       let t4 := t3.dropWhile isDigit
-       if ip = [] ∧ fp = [] then none else
-       match lexExp t4 with
-       | some x => some (normDec neg (digitsVal (ip ++ fp)) (x.getD 0 - fp.length))
+      (if ip = [] ∧ t3.takeWhile isDigit = [] then none else
+       match lexExp (t3.dropWhile isDigit) with
+       | some x => some (normDec neg (digitsVal (ip ++ t3.takeWhile isDigit)) (x.getD 0 - (t3.takeWhile isDigit).length))
        | none => none)
     else
       if ip = [] then none else
       match lexExp t2 with
       | some (some x) => some (normDec neg (digitsVal ip) x)
       | _ => none
+
+def lexUnsigned (neg : Bool) (t1 : Str) : Option CNum :=
+  lexAfter neg (t1.takeWhile isDigit) (t1.dropWhile isDigit)
 
 /-- the whole text as one INT_LIT / FLOAT_LIT token, and its value -/
 def lexNumber (t : Str) : Option CNum :=
@@ -229,10 +233,14 @@ def encodeStr (s : Str) : Str :=
 
 /-! ## `encode_cel` on JSON values (exact text) -/
 
+def nullText : Str := ['n', 'u', 'l', 'l']
+def trueText : Str := ['t', 'r', 'u', 'e']
+def falseText : Str := ['f', 'a', 'l', 's', 'e']
+
 mutual
 def enc : JVal → Str
-  | .null => "null".toList
-  | .bool b => if b then "true".toList else "false".toList
+  | .null => nullText
+  | .bool b => if b then trueText else falseText
   | .int n => renderInt n
   | .flt e => renderFlt e
   | .str s => encodeStr s.toList
@@ -372,8 +380,8 @@ def toksText (ts : List Tok) : Str := ts.flatMap Tok.text
 mutual
 /-- the token sequence `encode_cel` writes (each literal token carries its text) -/
 def toks : JVal → List Tok
-  | .null => [.lit "null".toList]
-  | .bool b => [.lit (if b then "true".toList else "false".toList)]
+  | .null => [.lit nullText]
+  | .bool b => [.lit (if b then trueText else falseText)]
   | .int n => [.lit (renderInt n)]
   | .flt e => [.lit (renderFlt e)]
   | .str s => [.lit (encodeStr s.toList)]
@@ -396,9 +404,9 @@ def litVal (t : Str) : Option CVal :=
   | c :: _ =>
     if c = '"' then (lexString t).map .str
     else if c = '-' ∨ c = '.' ∨ isDigit c then (lexNumber t).map .num
-    else if t = "null".toList then some .null
-    else if t = "true".toList then some (.bool true)
-    else if t = "false".toList then some (.bool false)
+    else if t = nullText then some .null
+    else if t = trueText then some (.bool true)
+    else if t = falseText then some (.bool false)
     else none
 
 mutual
